@@ -92,6 +92,17 @@ def gen_cases(tier, seed):
                         cid = "%s-W%d-%s-o%d-Z-m%d%d%d-plain-tz%s" % (edge, W, side, off, mask[0], mask[1], mask[2], tz)
                         cases.append({"id": cid, "sig": [edge, side, off, W, "Z", list(mask), 0, tz], "edge": edge, "W": W, "side": side, "off": off,
                                       "spelling": "Z", "mask": list(mask), "signed": 0, "frac": 0.0, "tz": tz})
+    # the same bounds on responses that are not tied to an outstanding request, at an SP that allows unsolicited ones (the InResponseTo
+    # attributes still name a request: one the SP has forgotten, or that another SP made)
+    for edge in EDGES:
+        for W in ((0, 180) if tier == "quick" else (0, 60, 3600)):
+            for side in ("reject", "accept"):
+                if (edge.endswith("after-nooa") or edge == "scd-nb") and side == "accept":
+                    continue
+                for off in ((2, 100000) if tier == "quick" else OFFSETS):
+                    cid = "%s-W%d-%s-o%d-Z-m111-plain-unsolicited" % (edge, W, side, off)
+                    cases.append({"id": cid, "sig": [edge, side, off, W, "Z", [1, 1, 1], 0, "unsolicited"], "edge": edge, "W": W, "side": side, "off": off,
+                                  "spelling": "Z", "mask": [1, 1, 1], "signed": 0, "frac": 0.0, "unsol": 1})
     # a Conditions element that carries its bounds and nothing else (no AudienceRestriction or other child)
     for edge in ("cond-nooa", "cond-nb", "cond-nb-after-nooa", "scd-nooa", "session-nooa"):
         for W in ((0, 180) if tier == "quick" else ALLOWANCES):
@@ -164,13 +175,13 @@ def setup_worker(ctx):
         ctx.contracts = "unavailable: %r" % exc
 
 
-def _pair(ctx, W, signed):
+def _pair(ctx, W, signed, unsol=False):
     def build():
         top = {"accepted_time_diff": W} if W else {}
-        spc = fed.sp_conf(want_response_signed=bool(signed), top=top)
+        spc = fed.sp_conf(want_response_signed=bool(signed), top=top, **({"allow_unsolicited": True} if unsol else {}))
         idc = fed.idp_conf()
         return fed.make_sp(spc, [fed.metadata_of(idc)]), fed.make_idp(idc, [fed.metadata_of(spc)])
-    return ctx.fedcache.get("pair", [W, signed], build)
+    return ctx.fedcache.get("pair", [W, signed, unsol], build)
 
 
 def run_multi(case, ctx):
@@ -339,7 +350,9 @@ def run_case(case, ctx):
 def _run_case(case, ctx):
     if case.get("kind") == "multi":
         return run_multi(case, ctx)
-    sp, idp = _pair(ctx, case["W"], case["signed"])
+    sp, idp = _pair(ctx, case["W"], case["signed"], bool(case.get("unsol")))
+    # (unsolicited: the SP allows it and no longer knows - or never knew - the request the message names)
+    OUT = {} if case.get("unsol") else globals()["OUT"]
     clock.install()
     clock.set_now(T0)
     W, off, edge, side = case["W"], case["off"], case["edge"], case["side"]
